@@ -92,7 +92,7 @@ class C04(Prop):
     design_ref = '§5 C04'
     rule = ('sequences of correctly delimited frames (valid, undecodable, ignored, zero-length) plus optional truncated/garbage tail, cut into reads by '
             'five chunking styles (single bytes, whole, one cut, cuts inside every prefix, random); byte-stream mode through FrameParser and through '
-            'TransportTCP.next_frame_generator with varying read sizes; message mode incl. the empty message; non-trivial = at least two frames and at least '
+            'TransportTCP.next_frame_generator with varying read sizes; message mode incl. the empty message, and whole messages through a real message transport (TransportAioHttpWebsocket fed by a fake websocket, frames pulled through AbstractMessagingTransport.next_frame_generator); non-trivial = at least two frames and at least '
             'one cut strictly inside a frame or its prefix (stream mode), or a message-mode case; distinct = distinct (bytes, chunking)')
     assumptions = ['the per-frame decoder is a parameter of the theorem; with the stub decoder the harness replaces rsocket.frame_parser.parse_or_ignore']
 
@@ -100,7 +100,7 @@ class C04(Prop):
         out = []
         n = 2500 if tier == 'quick' else 80000
         for i in range(n):
-            kind = rng.choice(['stub', 'stub', 'stub', 'real', 'tcp', 'msg'])
+            kind = rng.choice(['stub', 'stub', 'stub', 'real', 'tcp', 'msg', 'wsmsg'])
             if kind == 'stub':
                 bodies = []
                 for _ in range(rng.randint(0, 7)):
@@ -110,7 +110,7 @@ class C04(Prop):
                 data = b''.join(len(b).to_bytes(3, 'big') + b for b in bodies) + tail
                 pts, style = rand_chunking(rng, len(data))
                 out.append({'kind': 'stub', 'bodies': [b.hex() for b in bodies], 'tail': tail.hex(), 'cuts': pts, 'style': style})
-            elif kind in ('real', 'tcp'):
+            elif kind in ('real', 'tcp', 'wsmsg'):
                 specs = [FR.gen_spec(rng) for _ in range(rng.randint(1, 6))]
                 junk = rng.choice(['', '', 'ee', '0000000000ff', '00000001' + 'ff' * 4])  # undecodable but delimited bodies
                 c_undec = junk in ('ee', '0000000000ff')      # shorter than a header / unknown frame type
@@ -126,6 +126,8 @@ class C04(Prop):
                 if kind == 'real':
                     c['cuts'], c['style'] = None, None
                     c['seed'] = rng.getrandbits(32)
+                elif kind == 'wsmsg':
+                    pass
                 else:
                     c['read'] = rng.choice([1, 2, 3, 4, 7, 64, 1024])
                 out.append(c)
@@ -208,6 +210,40 @@ class C04(Prop):
                         break
                 runs[style + ':' + ','.join(map(str, pts[:40]))] = {'items': items, 'residual': bytes(p._buffer).hex(), 'terminated': ok}
             return {'expected': expected, 'valid_only': valid_only, 'runs': runs, 'nbytes': len(data)}
+        if kind == 'wsmsg':
+            # a real message transport of the library (aiohttp websocket server side) fed by a fake websocket: one message per frame,
+            # frames pulled through the inherited AbstractMessagingTransport.next_frame_generator
+            import aiohttp
+            from rsocket.transports.aiohttp_websocket import TransportAioHttpWebsocket
+
+            class Msg:
+                def __init__(self, data):
+                    self.type, self.data = aiohttp.WSMsgType.BINARY, data
+
+            class WS:
+                def __aiter__(self):
+                    async def it():
+                        for b in bodies:
+                            yield Msg(b)
+                    return it()
+
+            async def go_ws():
+                t = TransportAioHttpWebsocket(WS())
+                await t.handle_incoming_ws_messages()
+                items = []
+                for _ in range(len(bodies) + 2):
+                    if t._incoming_frame_queue.empty():
+                        return items, True
+                    try:
+                        g = await t.next_frame_generator()
+                        async for fr in g:
+                            items.append(FR.dump(fr))
+                    except Exception as e:
+                        items.append('RAISED:' + type(e).__name__)
+                        return items, True
+                return items, t._incoming_frame_queue.empty()
+            items, ok = lp.run_until_complete(asyncio.wait_for(go_ws(), 5))
+            return {'expected': expected, 'valid_only': valid_only, 'runs': {'websocket-messages': {'items': items, 'residual': '', 'terminated': ok}}, 'nbytes': len(data)}
         # tcp
         from rsocket.transports.tcp import TransportTCP
 
@@ -245,7 +281,7 @@ class C04(Prop):
             return ['drain - ' + ' '.join(c or '-' for c in obs['chunks'])]
         if case['kind'] == 'msg' and not case['real']:
             return ['msg ' + (case['msg'] or '-')]
-        if case['kind'] in ('real', 'tcp'):
+        if case['kind'] in ('real', 'tcp', 'wsmsg'):
             # the per-frame decoder of the composition C04 ∘ C02: the codec model decides what each delimited body is
             return ['dec ' + (b.hex() or '-') for b in self._wire(case)[0]]
         return []
@@ -253,7 +289,7 @@ class C04(Prop):
     def compare(self, case, obs, answers):
         if not answers:
             return None
-        if case['kind'] in ('real', 'tcp'):
+        if case['kind'] in ('real', 'tcp', 'wsmsg'):
             if any(a.startswith('OUT-OF-DOMAIN') or a == 'OOD' for a in answers):
                 return None
             want = [a for a in answers if a != 'IGNORED']
